@@ -1392,7 +1392,6 @@ bool ScriptVM::Process(ScriptContext& context, uinttime_t interruptTime)
 
             if (!GetScriptClass()->GetSelf())
             {
-                m_Stack.Push();
                 throw ScriptException("self is NULL");
             }
 
